@@ -9,8 +9,8 @@ slots the half owns once everything that is being imported into it has been comm
 the importing ranges are well-formed and pairwise disjoint (a consequence of `SlotInv` +
 `TwinInv`); under it a commit adds exactly the committed ranges' count to the stable list.
 -/
-namespace Um.Broker
-open Um Um.Slots
+namespace Um.Broker.Scale
+open Um Um.Slots Um.Broker
 
 /-! ## `compact` keeps ranges away from what they were disjoint from -/
 
@@ -171,4 +171,4 @@ theorem half_land {st : Option RangeList} {l1 l2 : List MigStore} {a : MigStore}
       simp only [proj, absorb, halfCount, himp', List.flatten_append, mergeAnother]
       rw [slotsNum_compact_append hd]
 
-end Um.Broker
+end Um.Broker.Scale
